@@ -28,6 +28,71 @@ TABLE = {
         "Generated search (exploration): assemblies with unequal edge lengths, all numberings (anti-aligned neighbours in ~65 % of cases), all preserve modes, 1-3 section chops; each hex entry is expanded to 12 edge gradings and the physical size sequence compared on every shared edge, with the live wires, and preserved sizes compared over the whole family at the geometrically same end.",
         "Straight edges only (lengths from parsed vertices, 8 decimals); relative tolerance 1e-6. Trusts vf/foamdict.py and vf/refmodel.multi_sizes.",
     ),
+    "C05": (
+        "Hypothesis PBT; differential against a reference partition of (operation, corner) computed from lattice bookkeeping; metamorphic over insertion order",
+        "Generated search (exploration): lattice assemblies with random patch names, 0-2 master/slave pairs (also two pairs at one node), sub-tolerance jitter that must merge and near-misses (3-8 x TOL) that must not; the vertex partition read from Block.indexes and from the parsed file is compared with the reference partition by (position class, slave-patch set); indices dense and in list order; same partition for a second insertion order.",
+        "Combinations the statement leaves open (two different non-empty slave sets at one point) are counted, not judged. Positions are either identical/sub-TOL or >= 3 TOL apart (no chains).",
+    ),
+    "C06": (
+        "Hypothesis PBT over generated user scripts; differential: script-level model kept by the generator vs. the file re-read by an independent blockMeshDict/VTK parser",
+        "Generated search (exploration): programs of 1-3 entities (Box, Loft clusters in 24 numberings, Extrude, Revolve, Wedge, Cylinder, ExtrudedRing, Hemisphere, Grid stack, stacked boxes with a real merged interface) and 0-10 statements (patches, zones, side/edge/corner projections, geometry, merges, default patch, modify_patch, settings, delete) in shuffled order; every section of the written file and the debug VTK is compared with the model.",
+        "Trusts vf/foamdict.py and vf/x_script.py (model). Edge entries are only validity-checked here (C07 decides them). One known finding (F15) is confined to a witness cell.",
+    ),
+    "C07": (
+        "Hypothesis PBT + enumerated grid (kind x 12 positions x face histories); invariant/differential oracle on the parsed edges section with geometric ground truth",
+        "Generated search (exploration): every edge kind on every one of the 12 edge positions, declared on faces before invert/shift/reorient histories, on the opposite face or as side edge, alone or shared with a second operation (declared once, twice, conflicting, degenerate); from the parsed file: exactly one entry per non-degenerate curved edge, on a real hex edge, payload directed from first to second vertex, degenerate ones omitted, Edge.length equals the user's curve.",
+        "Ground truth is geometric (end points + curve in the user's sense). Known finding F7 (Face.invert keeps direction-dependent payload) is matched in a witness cell only.",
+    ),
+    "C08": (
+        "Hypothesis PBT; differential against the analytic circle (own cos/sin construction, circle through 3 points)",
+        "Generated search (exploration): centre/axis in general position, radii over three decades, sector angles in (0.1, 2pi-0.05) of either sign; mid point of angle/origin arcs within 1e-7 R of the analytic mid point, lengths R*theta within 1e-7, the arc line of the written file, three-point arc length, chord bound for every edge kind.",
+        "Known findings F10 (OpenFOAM's interior/exterior convention) and C08-N2 (absolute collinearity tolerance on tiny arcs) are confined to witness cells with narrow predicates.",
+    ),
+    "C10": (
+        "Hypothesis PBT + enumerated index grids; invariant (permutation of the same points, edges attached) and differential against the blockMesh hexahedron convention from the OpenFOAM user guide",
+        "Generated search (exploration): general-position quadrilaterals with 4 distinguishable edges under sequences of shift/invert/reorient; operations in 24 numberings with set_patch / project_side / project_edge / project_corner / add_side_edge / Face.add_edge / get_face over all 6 sides x 12 edges x 8 corners (full index grid enumerated); the written file must address exactly the modelled side, edge or corner.",
+        "Direction of edge entries is left to C07; reorient asserted only when the nearest corner is nearer by >= 10 %.",
+    ),
+    "C11": (
+        "Hypothesis PBT over all shape classes in random placement; invariants (corner Jacobians, vertex/block counts, face connectivity, arcs on circle) + write succeeds + parsed-file count agreement",
+        "Generated search (exploration): 36 cells - round shapes, rings, hemisphere, joints, operations, shell, 13 sketches under 5 sweeps, 4 stack kinds, chains of up to 3 steps (chain/expand/contract/fill): independent Jacobians > 0, expected vertex and block counts, no face used by three blocks, outer arcs on the intended circle, documented chops make write succeed with consistent counts, chained shapes share exactly the interface vertices.",
+        "Jacobians are evaluated on the straight-edged block. Joints and big shapes have small case counts in the quick tier.",
+    ),
+    "C12": (
+        "Model-based testing over generated API histories (JSON programs interpreted against the real Mesh and a script-level model); differential against a fresh build",
+        "Generated search (exploration) over histories of <= 12 steps on <= 4 operations (add, delete, assemble, move vertices, backport, clear, modify_patch, set_default_patch, merge_patches, write, write twice): every written text is compared section by section with a fresh Mesh built once from the model; backport updates exactly the owning operations also after deletes; second write is byte-identical.",
+        "Count-only chops; Lofts (bare or in a user Shape) with arcs/projections; face-less patches and patch order are not judged.",
+    ),
+    "C13": (
+        "Hypothesis PBT with injected faults (degenerate-cell exception at the k-th quality evaluation); invariants on quality, immobility, manifold membership, bounds, links, backport",
+        "Generated search (exploration): small hex lattices and mapped sketches with jittered points, random clamps of every type, optional links, all four minimisers, 1-3 iterations; quality not worse (rel 1e-9), unclamped vertices bit-identical, clamped vertices on their analytic manifold and inside bounds, followers keep their relation, mesh/sketch equals the optimizer grid, injected faults are rolled back or leave the mesh untouched.",
+        "Optimizer runs are slow: 105 cases in the quick tier. Manifolds are analytic and invertible (line, circle, plane, parabola, saddle).",
+    ),
+    "C14": (
+        "Hypothesis PBT; metamorphic relations (renumbering, rigid motion, uniform scale, stretch) on the quality value",
+        "Generated search (exploration): convex hexahedra/quads near and far from a cube, 24/4 renumberings, rigid motions, scales 0.1-100, 0-2 neighbours; quality equal within a tolerance derived from the library's VSMALL guard for the case's own geometry; cube stretched along each direction never lowers the value and raises it equally.",
+        "A wrong formula that still depends only on shape cannot be seen by this property. Scale invariance asserted when shortest edge x scale >= 1.",
+    ),
+    "C15": (
+        "Hypothesis PBT; invariants with an independent topology (boundary = edge/face in exactly one cell), one-sweep oracle independent of sweep order, fix-point residual and direct linear solve",
+        "Generated search (exploration): structured/unstructured quad maps (3/5/6-valent points, dropped cells), library disks, hex assemblies up to 3x3x3, fixed sets by index/position, 1-200 iterations; boundary and fixed points bit-identical, each free point the mean of its edge neighbours (any mix of old/new neighbour states), converged result equals the harness's own linear solve, regular boundary gives the regular lattice, copy-back consistent for every face/vertex.",
+        "Fix point asserted only past a computed iteration threshold (spectral radius of the harness's own graph).",
+    ),
+    "C17": (
+        "Hypothesis PBT; differential against analytic manifolds and independent link relations (Rodrigues rotation, 4x4 mirror)",
+        "Generated search (exploration): clamps of every type created on and off their manifold in general position (non-unit, non-zero), parameters within bounds; links with leader moves of any size; creation position / closest point, manifold membership and declared parametrisation, follower relation, leader bit-identical after update.",
+        "Creation tolerance 1e-3 + 1e-2 x scale (derived from the library's ftol). Two known findings on polyline curve clamps are matched narrowly.",
+    ),
+    "C19": (
+        "Hypothesis PBT; differential: position of each addressed entity in the stack's / shape's own frame (harness's layer maps), parsed file after delete",
+        "Generated search (exploration): Grid n1 x n2 in 1..5, 1-4 tiers, extruded/revolved/transformed stacks, 8 round shapes and 12 sketches in general placement; grid[k][j][i] and get_slice checked by position, core/shell partition by contact with the outer curve, delete/chop of an addressed entity hits exactly that hex in the written file.",
+        "WrappedDisk (three tiers) partition is not required to be exhaustive. One known finding (HalfSplineDisk grid) matched narrowly.",
+    ),
+    "C20": (
+        "Hypothesis PBT + enumerated boundary grids; expected accept/reject class from the documented condition; metamorphic symmetry (+delta / -delta)",
+        "Generated search (exploration): 34 call sites with a documented precondition, arguments on both sides of each boundary (counts, indices -1/0/max/max+1, 1-3 projection labels, length ratios, radii, perpendicularity deviations of either sign, chain lengths, sketch face counts, clamps/links, life-cycle order); invalid must raise, valid must not; symmetric conditions judged on both sides.",
+        "Only conditions the statement lists are asserted; nothing within 10-100x of a tolerance boundary is asserted.",
+    ),
 }
 
 GENERIC = (
